@@ -50,9 +50,9 @@ Theorem C04_gen_sortNDHelperA_is_model : forall fuel fs obj front, gen_sortNDHel
 Proof. exact gen_sortNDHelperA_eq. Qed.
 Print Assumptions C04_gen_sortNDHelperA_is_model.
 
-(* the top-level wrapper (hand transcription of sortLogNondominated) around the regenerated recursion = the model *)
-Theorem C04_gen_sort_log_is_model : forall pop k ffo, gen_sort_log pop k ffo = sort_log pop k ffo.
-Proof. exact gen_sort_log_eq. Qed.
+(* sortLogNondominated itself, regenerated = the model, for every non-empty population (individuals[0] raises on the empty one) *)
+Theorem C04_gen_sort_log_is_model : forall pop k ffo, pop <> [] -> gen_sortLogNondominated pop k ffo = sort_log pop k ffo.
+Proof. exact gen_sortLogNondominated_eq. Qed.
 Print Assumptions C04_gen_sort_log_is_model.
 
 (* C04_sweepA_correct on the regenerated sweepA *)
@@ -76,11 +76,11 @@ Theorem C04_gen_helperB_correct : forall Mlen fuel m L H fr fr',
 Proof. exact gen_helperB_correct. Qed.
 Print Assumptions C04_gen_helperB_correct.
 
-(* C04_sort_log_correct with the regenerated recursion inside: exact dominance-depth ranking, every k, both flags *)
+(* C04_sort_log_correct on the regenerated sortLogNondominated: exact dominance-depth ranking, every k, both flags *)
 Theorem C04_gen_sort_log_correct : forall pop k ffo,
   NoDup (map uid pop) -> same_len (map iw pop) -> pop <> [] ->
   (forall x, In x pop -> (2 <= length (iw x))%nat) ->
-  exists r, gen_sort_log pop k ffo = Some r /\ Forall2 (@Permutation ind) (log_fronts r) (spec_sort pop k ffo).
+  exists r, gen_sortLogNondominated pop k ffo = Some r /\ Forall2 (@Permutation ind) (log_fronts r) (spec_sort pop k ffo).
 Proof. exact gen_sort_log_correct. Qed.
 Print Assumptions C04_gen_sort_log_correct.
 
@@ -88,7 +88,7 @@ Print Assumptions C04_gen_sort_log_correct.
 Theorem C04_gen_sorts_agree : forall pop k ffo,
   NoDup (map uid pop) -> same_len (map iw pop) -> pop <> [] ->
   (forall x, In x pop -> (2 <= length (iw x))%nat) ->
-  exists fs r, sort_nd pop k ffo = Some fs /\ gen_sort_log pop k ffo = Some r /\
+  exists fs r, sort_nd pop k ffo = Some fs /\ gen_sortLogNondominated pop k ffo = Some r /\
                Forall2 (@Permutation ind) (log_fronts r) fs.
 Proof. exact gen_sorts_agree. Qed.
 Print Assumptions C04_gen_sorts_agree.
@@ -97,7 +97,7 @@ Print Assumptions C04_gen_sorts_agree.
 Theorem C04_gen_sort_log_first_front_only : forall pop k,
   NoDup (map uid pop) -> same_len (map iw pop) -> pop <> [] ->
   (forall x, In x pop -> (2 <= length (iw x))%nat) -> k <> 0 ->
-  exists F, gen_sort_log pop k true = Some (LFlat F) /\ NoDup (map uid F) /\
+  exists F, gen_sortLogNondominated pop k true = Some (LFlat F) /\ NoDup (map uid F) /\
             forall x, In x F <-> In x pop /\ forall y, In y pop -> idom y x = false.
 Proof. exact gen_log_first_front_only. Qed.
 Print Assumptions C04_gen_sort_log_first_front_only.
@@ -106,7 +106,7 @@ Print Assumptions C04_gen_sort_log_first_front_only.
 Theorem C04_gen_sort_log_leading_fronts : forall pop k,
   NoDup (map uid pop) -> same_len (map iw pop) -> pop <> [] ->
   (forall x, In x pop -> (2 <= length (iw x))%nat) -> k <> 0 ->
-  exists fs j, gen_sort_log pop k false = Some (LFronts fs) /\
+  exists fs j, gen_sortLogNondominated pop k false = Some (LFronts fs) /\
     (j < length (spec_fronts pop))%nat /\
     Forall2 (@Permutation ind) fs (firstn (S j) (spec_fronts pop)) /\
     (forall j', (0 < j' <= j)%nat -> ztotal (firstn j' (spec_fronts pop)) < Z.min (zlen pop) k) /\
